@@ -152,9 +152,12 @@ def sweep_ranges(v, what):
     every year for cheap groups); thorough = every day."""
     if v.tier == "thorough" or what == "all":
         return vlib.ALL_DAYS
+    # the boundary-rich years plus a dozen ordinary years drawn from the seed (defects confined to some mid-range years)
+    import random
+    years = sorted(set(vlib.QUICK_YEARS) | set(random.Random(v.seed * 17 + 3).sample(range(6, 9990), 12)))
     if what == "full":
-        return vlib.year_ranges(vlib.QUICK_YEARS)
-    return vlib.merge_ranges(vlib.year_ranges(vlib.QUICK_YEARS) + vlib.edge_ranges())
+        return vlib.year_ranges(years)
+    return vlib.merge_ranges(vlib.year_ranges(years) + vlib.edge_ranges())
 
 
 # --------------------------------------------------------------------------
@@ -194,6 +197,9 @@ def expect_ok(exp, r):
         return r == [1, exp[1]]
     if k == "nopanic":
         return not (isinstance(r, list) and len(r) == 2 and r[0] == 2)
+    if k == "pair":       # composite result [0, [r1, r2]] with one expectation per part
+        return (isinstance(r, list) and len(r) == 2 and r[0] == 0 and isinstance(r[1], list) and len(r[1]) == 2
+                and expect_ok(exp[1], r[1][0]) and expect_ok(exp[2], r[1][1]))
     if k == "ordeq":      # same-type ordering <<cmp, ==, equal hashes, operators>>: hashes are only judged for equal values
         e = exp[1]
         if r == e:
@@ -805,6 +811,14 @@ def c14(v):
     speclaws(v, ["BigLaws"])
     plan = multi_plan(v, ["YM.mul_f64", "YM.div_f64", "DT.mul_f64", "DT.div_f64", "T.mul_f64", "T.div_f64"], scale_of(v),
                       100000, heavy_cap=2600 * scale_of(v), rounds=5)
+    # products / quotients whose real value lies less than one whole month beyond (or below) the interval limit:
+    # truncation comes first, the range is judged on the truncated count
+    for x in (1, 5, 7, 12, 1000, 119988, 2135999991, pools.YM_MAX):
+        for fpart in (0.25, 0.5, 0.9, -0.5, -1.5, 1.25):
+            k_ = (pools.YM_MAX + fpart) / x
+            for sx, sk in ((1, 1), (-1, 1), (1, -1), (-1, -1)):
+                plan.append(("YM.mul_f64", [sx * x, pools.fspec(sk * k_)]))
+                plan.append(("YM.div_f64", [sx * x, pools.fspec(sk / k_)]))
     eventtrace(v, "scale", plan, {"result", "range", "panic"}, shard=1200)
 
 
@@ -927,6 +941,14 @@ def c07(v):
                     plan.append(("T.is_valid", [h, mi, sc, us]))
                     if (h + mi + sc + us) % 3 == 0:
                         plan.append(("D.and_hms", [0, h, mi, sc, us]))
+    # times of day that alias to zero / to the sign bit when a microsecond count or a pre-1970 remainder is narrowed to
+    # 32 bits, on dates before and after 1970: split, accessors, recombination
+    for t in P.alias_times:
+        for d_ in (-1, -7305, pools.DATE_MIN + 5, 0, 19782, pools.DATE_MAX - 3):
+            plan.append(("TS.acc", [[d_, t[0], t[1]]]))
+            plan.append(("TS.extract", [[d_, t[0], t[1]]]))
+            plan.append(("TS.new", [d_, t]))
+            plan.append(("T.from_ts", [[d_, t[0], t[1]]]))
     plan += pools.plan_for(["TS.new", "TS.extract", "TS.usecs", "TS.try_from_usecs", "TS.acc", "TS.ord", "T.ord", "D.ord", "D.and_time",
                             "D.and_hms", "T.from_ts", "T.try_from_usecs", "T.usecs", "D.acc", "T.acc", "D.to_ts"], P, cap=3000)
     eventtrace(v, "clock", plan, {"result", "range", "panic"}, shard=30000)
@@ -1252,7 +1274,7 @@ def spellgen(v, tag, cases, chunks=12):
     return list(gens.values())
 
 
-def replay_spellings(v, tag, gens, want):
+def replay_spellings(v, tag, gens, want, reuse=False):
     """gens: GEN tuples <<"GEN", case, variant, ty, pic, text, clock, expect, lossless>>."""
     plan = []
     meta = []
@@ -1270,6 +1292,23 @@ def replay_spellings(v, tag, gens, want):
     for op, args, r, exp in bad:
         v.mismatch("SpellGen:" + op, {"op": op, "pic": "".join(args[2]), "text": "".join(args[1]), "clock": args[0]},
                    {"observed": r, "expected": list(exp)})
+    if reuse:
+        # the same (type, picture, text) under two clocks through ONE Formatter object: each parse must give what the
+        # specification generated for its own clock (a formatter keeps no state between calls)
+        groups = {}
+        for op, a, exp in plan:
+            groups.setdefault((op, json.dumps(a[1]), json.dumps(a[2])), []).append((a[0], exp))
+        plan2 = []
+        for (op, text, pic), lst in groups.items():
+            for (c1, e1), (c2, e2) in zip(lst, lst[1:] + lst[:1]):
+                if c1 != c2:
+                    plan2.append((op.replace("parse_at", "parse_reuse_at"), [c1, c2, json.loads(text), json.loads(pic)], ("pair", e1, e2)))
+        bad2 = replay_plan(v, tag + "_reuse", plan2)
+        v.cov["traces_validated_against_impl"] += 1
+        for op, args, r, exp in bad2:
+            v.mismatch("SpellGen:" + op, {"op": op, "pic": "".join(args[3]), "text": "".join(args[2]), "clock": args[0], "clock2": args[1]},
+                       {"observed": r, "expected": [list(exp[1]), list(exp[2])]})
+        return len(plan) + len(plan2)
     return len(plan)
 
 
@@ -1349,7 +1388,8 @@ def c18(v):
                      "under every window day x times of day (and clocks outside 1..9999), judged by Ops.tla; (2) SpellGen.tla cases "
                      "with partial pictures (no year / month / day, Y / YY / YYY, HH12 defaults) under six clocks incl. years whose "
                      "hundreds digit is non-zero, Jan 31 and 9999-12-31 - expected value = Spell.Denote (fields completed from the "
-                     "clock); complete pictures replayed under different clocks must not depend on the clock.")
+                     "clock); complete pictures replayed under different clocks must not depend on the clock; every text is also parsed "
+                     "twice through ONE Formatter object under two different clocks (each result = the denotation under its own clock).")
     plan = []
     days = []
     for a, b in sweep_ranges(v, "full" if v.tier == "quick" else "all"):
@@ -1385,7 +1425,7 @@ def c18(v):
         for clk in CLOCKS[:4]:
             allc.append((ty, pic, val, clk))
     gens = spellgen(v, "clock", allc)
-    replay_spellings(v, "clock", gens, lambda var, exp, loss, ty, pic: var <= N_STYLES + MAX_CUT)
+    replay_spellings(v, "clock", gens, lambda var, exp, loss, ty, pic: var <= N_STYLES + MAX_CUT, reuse=True)
 
 
 FIXED_PICS = {"D": "YYYY-MM-DD", "T": "HH24:MI:SS.FF6", "TS": "YYYY-MM-DD HH24:MI:SS.FF6", "YM": "YYYY-MM",
@@ -1548,7 +1588,8 @@ def c03(v):
             v.mismatch("Replay:" + op, {"op": op, "aspect": "panic", "profile": profile,
                                         "a": ["".join(x) if isinstance(x, list) and x and isinstance(x[0], str) else x for x in args]},
                        {"observed": r})
-    v.sample({"hostile_inputs": [[p[0], "".join(p[1][0])[:40] if isinstance(p[1][0], list) else p[1][0]] for p in plan[5000:5003]]})
+    v.sample({"hostile_inputs": [[p[0], "".join(p[1][0])[:40] if isinstance(p[1][0], list) and all(isinstance(c, str) for c in p[1][0])
+                                  else p[1][0]] for p in plan[-3:]]})
 
 
 # --------------------------------------------------------------------------
